@@ -63,7 +63,7 @@ Print Assumptions C07_disc_max_nulls.
 
 Theorem C07_disc_no_duplicates_iff : forall c,
   d_no_duplicates c = [CNoDup (Some true)] <->
-  has_rows c = true /\ (c_type c = TString \/ c_type c = TInt) /\
+  has_rows c = true /\ counts_distinct (c_type c) = true /\
   (1 < Z.of_nat (length (non_nulls c))) /\ NoDupV (non_nulls c).
 Proof. exact disc_no_duplicates_iff_proof. Qed.
 Print Assumptions C07_disc_no_duplicates_iff.
